@@ -600,9 +600,51 @@ func r03_6(c *RC) {
 				}
 			}
 		}
+		// F16: the emptiness of the queue must be established *after* the
+		// wake-up that saw the session closed. A test made before the wait
+		// says nothing about what was queued while waiting: data and close
+		// can both arrive in that window, select may pick the close, and the
+		// application reads a strict prefix and then a clean end of stream.
+		recheck := false
+		var wake *ssa.Select
+		for _, ce := range conds {
+			if x, ok := ce.If.Cond.(*ssa.BinOp); ok && x.Op == token.EQL && ce.Idx == 0 {
+				if ex, ok := x.X.(*ssa.Extract); ok {
+					if sel, ok := ex.Tuple.(*ssa.Select); ok {
+						wake = sel
+					}
+				}
+			}
+		}
+		if wake != nil {
+			for _, ce := range conds {
+				x, ok := ce.If.Cond.(*ssa.BinOp)
+				if !ok || !instrDominates(wake, ce.If) {
+					continue
+				}
+				isZeroConst := func(v ssa.Value) bool { k, ok := constInt(v); return ok && k == 0 }
+				isOneConst := func(v ssa.Value) bool { k, ok := constInt(v); return ok && k == 1 }
+				isQueueLen := func(v ssa.Value) bool {
+					cl, ok := v.(*ssa.Call)
+					return ok && calleeName(cl) == "Len" && sameField(fieldOrigin(cl.Call.Args[0]), rq)
+				}
+				var zero bool
+				if ce.Idx == 1 {
+					zero = cmpForm(x, token.GTR, isQueueLen, isZeroConst) || cmpForm(x, token.NEQ, isQueueLen, isZeroConst) || cmpForm(x, token.GEQ, isQueueLen, isOneConst)
+				} else {
+					zero = cmpForm(x, token.LEQ, isQueueLen, isZeroConst) || cmpForm(x, token.EQL, isQueueLen, isZeroConst) || cmpForm(x, token.LSS, isQueueLen, isOneConst)
+				}
+				if zero {
+					recheck = true
+				}
+			}
+		}
 		var missing []string
 		if !emptyQ {
 			missing = append(missing, "receive queue empty")
+		}
+		if emptyQ && !recheck {
+			missing = append(missing, "a test of the receive queue made after the wake-up that found the session closed (the only test precedes the wait, so segments queued while waiting are skipped)")
 		}
 		if !nothingCopied {
 			missing = append(missing, "nothing copied in this call")
@@ -617,7 +659,7 @@ func r03_6(c *RC) {
 			missing = append(missing, "an 'incomplete' record to consult")
 		}
 		if len(missing) == 0 {
-			c.OKH("eof-conditions", pos, "io.EOF only with the receive queue empty, nothing copied, session closed and not marked incomplete")
+			c.OKH("eof-conditions", pos, "io.EOF only with the receive queue empty (tested again after the wake-up), nothing copied, session closed and not marked incomplete")
 		} else {
 			c.Bad("eof-conditions", pos, "Session.Read can report a clean end-of-stream without %s", strings.Join(missing, ", "))
 		}
